@@ -465,7 +465,7 @@ def _unit_chunk(args):
             model = recog.get_model(rcg, mt, cul)
         except Exception:
             continue
-        signal.setitimer(signal.ITIMER_REAL, timeout)
+        signal.setitimer(signal.ITIMER_REAL, timeout, 1.0)   # repeats: a raise swallowed by a __del__ fires again
         try:
             if rcg == 'NumberWithUnit':
                 try:
@@ -482,6 +482,7 @@ def _unit_chunk(args):
                 model.parse(q)
             signal.setitimer(signal.ITIMER_REAL, 0)
         except QueryTimeout:
+            signal.setitimer(signal.ITIMER_REAL, 0)
             dropped += 1
             rec.stack.clear()
             continue
